@@ -334,6 +334,61 @@ def threads_run(rng, out):
     return len(ths) + 8 * 400
 
 
+def failed_call_history(out):
+    """a conversion / serialisation that FAILS part-way leaves no trace: the same containers, repaired in place, and new ones are
+    afterwards treated as if the failed call had never happened -- through into_data, convert, constructors, from_data, the
+    writers; for lists, tuples, sets, dicts, nested"""
+    import io as _io
+    import typing as t
+    import pane
+    from pane import io as pio
+    n = 0
+
+    class Row(pane.PaneBase):
+        xs: t.List[float] = pane.field(default_factory=list)
+        m: t.Dict[str, int] = pane.field(default_factory=dict)
+    bad = object()
+    with warnings.catch_warnings():
+        warnings.simplefilter('ignore')
+        for round_ in range(3):
+            lst, dct, nested, st = [1, 2, bad], {'a': 1, 'b': bad}, {'k': [1, [2, bad]]}, [1.0, 'two', 3.0]
+            attempts = [('into_data(list)', lambda: pane.into_data(lst)), ('into_data(dict)', lambda: pane.into_data(dct)), ('into_data(nested)', lambda: pane.into_data(nested)),
+                        ('convert(list, List[int])', lambda: pane.convert(lst, t.List[int])), ('Row(xs=...)', lambda: Row(xs=st)), ('convert(list, List[float])', lambda: pane.convert(st, t.List[float])),
+                        ('from_data(dict)', lambda: pane.from_data({'xs': st}, Row)), ('write_json', lambda: pio.write_json(lst, _io.StringIO())),
+                        ('into_data(list, List[int])', lambda: pane.into_data(st, t.List[int]))]
+            for label, call in attempts:
+                try:
+                    call()
+                    out.violation('C10:failed-call-history:first-call-succeeded', f'{label} was expected to fail (an object() / a str among numbers) and succeeded', {'call': label})
+                except Exception:
+                    pass
+            # repaired in place: the same objects
+            lst[2] = 3
+            dct['b'] = 2
+            nested['k'][1][1] = 3
+            st[1] = 2.0
+            later = [('into_data(list)', lambda: pane.into_data(lst), [1, 2, 3]), ('into_data(dict)', lambda: pane.into_data(dct), {'a': 1, 'b': 2}),
+                     ('into_data(nested)', lambda: pane.into_data(nested), {'k': [1, [2, 3]]}), ('convert(list, List[int])', lambda: pane.convert(lst, t.List[int]), [1, 2, 3]),
+                     ('Row(xs=...)', lambda: Row(xs=st).xs, [1.0, 2.0, 3.0]), ('convert(list, List[float])', lambda: pane.convert(st, t.List[float]), [1.0, 2.0, 3.0]),
+                     ('from_data(dict)', lambda: pane.from_data({'xs': st}, Row).xs, [1.0, 2.0, 3.0]), ('convert(tuple)', lambda: pane.convert(tuple(lst), t.Tuple[int, ...]), (1, 2, 3)),
+                     ('fresh containers', lambda: pane.into_data([[1], {'a': [2]}, (3,)]), [[1], {'a': [2]}, (3,)]),
+                     ('write_json', lambda: (lambda b: (pio.write_json(lst, b), b.getvalue().replace(' ', '').strip())[1])(_io.StringIO()), '[1,2,3]')]
+            for label, call, want in later:
+                n += 1
+                try:
+                    got = call()
+                except Exception as e:
+                    out.violation(f'C10:failed-call-history:{type(e).__name__}', f'{label} on containers repaired after an earlier FAILED call (round {round_ + 1}) raised {type(e).__name__}: {str(e)[:120]}; '
+                                  f'without that history it gives {want!r}', {'call': label})
+                    continue
+                if got != want and list(got) != list(want):
+                    out.violation('C10:failed-call-history', f'{label} after an earlier failed call gives {got!r}, without that history {want!r}', {'call': label})
+            import gc
+            del lst, dct, nested, st
+            gc.collect()
+    return n
+
+
 def typekey_correspondence(ctx, out, rng):
     """Model/TypeKey.v against typing and pane: == of typing objects, pane's ordered key, and which specialisations of one fresh
     generic dataclass are the same class object; on pane, every specialisation's field type has exactly the written structure"""
@@ -440,6 +495,7 @@ def run(ctx, out):
                 'type objects alive: every memoised answer (expected(), verdict and value on probe values) is compared with a converter '
                 'built by the unmemoised function; (3) first-seen order reversed; (4) 96 threads converting concurrently vs sequential, '
                 'and an LRU KeyCache hammered by 8 threads. Non-trivial = history longer than 3 operations.')
+    out.evaluations += failed_call_history(out)
     typekey_correspondence(ctx, out, rng)
     # (1)
     items = []
